@@ -122,7 +122,10 @@ def strict_read(cfgs, bits, data, enc, with_sub=True):
         if n:
             if pos + n > N:
                 raise Reject('DE%d: truncated length prefix' % b)
-            txt = sl(data, pos, pos + n).decode(enc)
+            try:
+                txt = sl(data, pos, pos + n).decode(enc)
+            except UnicodeDecodeError:
+                raise Reject('DE%d: length undecodable' % b)
             try:
                 ln = models.sh_int(txt)
             except ValueError:
@@ -143,7 +146,10 @@ def strict_read(cfgs, bits, data, enc, with_sub=True):
             if with_sub:
                 sub['ICC%d' % b] = icc_strict(raw)
             continue
-        v = raw.decode(enc) if not isinstance(raw, bytes) or raw else ''
+        try:
+            v = raw.decode(enc) if not isinstance(raw, bytes) or raw else ''
+        except UnicodeDecodeError:
+            raise Reject('DE%d undecodable' % b)
         pt = cfg.get('field_python_type')
         if pt in ('int', 'long'):
             _plain(v)
